@@ -16,12 +16,15 @@ RULES = {
     "R2": "IR field agreement: for Model, Graph, Function, Node, Value and Attr, every public attribute the serializer "
     "reads is supplied by the deserializer when it builds that class (constructor argument or later store)",
     "R3": "declare before resolve in _deserialize_graph / deserialize_function (shared with C17-R3)",
+    "R6": "an initializer tensor is emitted under the name of its value: every emission of <value>.const_value into the "
+          "proto's initializer list is dominated by the unconditional alignment <value>.const_value.name = <value>.name "
+          "(the name a tensor happens to carry - shared tensor, tensor named differently at construction - never reaches the proto)",
     "R5": "scope precedence (shared rule S2): every lookup over the deserializer's stack of per-graph name tables lets the "
           "innermost binding win — first hit of a reversed scan, last write of a forward merge, ChainMap of the reversed "
           "stack — so a name that shadows an outer one is bound to the value of its own graph after a round trip",
     "R4": "determinism: no serialize function iterates a set-typed expression",
 }
-FLOORS = {"R1": 30, "R2": 40, "R3": 2, "R4": 30, "R5": 2}
+FLOORS = {"R1": 30, "R2": 40, "R3": 2, "R4": 30, "R5": 2, "R6": 1}
 EXPLANATION = (
     "Effect summaries (writes on non-proto, non-fresh objects, class-qualified) of every serialize function; "
     "comparison of the attribute sets read by the serializer and supplied by the deserializer per IR class; "
@@ -203,6 +206,46 @@ def rule_r4(ctx):
                   how="for/comprehension iterables classified (set literal, set(), set comprehension, set-bound local)")
 
 
+def rule_r6(ctx):
+    n = 0
+    for f in ser_funcs(ctx):
+        emits = []
+
+        def is_init_add(e):
+            return isinstance(e, ast.Call) and isinstance(e.func, ast.Attribute) and e.func.attr == "add" \
+                and isinstance(e.func.value, ast.Attribute) and e.func.value.attr == "initializer"
+
+        slot_names = {a.targets[0].id for a in own_nodes(f.node) if isinstance(a, ast.Assign) and isinstance(a.targets[0], ast.Name) and is_init_add(a.value)}
+        for c in calls_in(f):
+            d = dotted_of(c.func) or ""
+            if d.endswith("serialize_tensor_into") and c.args and (is_init_add(c.args[0]) or (isinstance(c.args[0], ast.Name) and c.args[0].id in slot_names)):
+                src = c.args[1] if len(c.args) > 1 else next((k.value for k in c.keywords if k.arg == "from_"), None)
+                emits.append((c, src))
+        if not emits:
+            continue
+        cfg = CFG(f.node)
+        for c, src in emits:
+            n += 1
+            owner = norm(src.value) if isinstance(src, ast.Attribute) and src.attr == "const_value" else None
+            aligns = [a for a in own_nodes(f.node) if isinstance(a, ast.Assign) and isinstance(a.targets[0], ast.Attribute) and a.targets[0].attr == "name"
+                      and isinstance(a.targets[0].value, ast.Attribute) and a.targets[0].value.attr == "const_value"
+                      and owner is not None and norm(a.targets[0].value.value) == owner
+                      and isinstance(a.value, ast.Attribute) and a.value.attr == "name" and norm(a.value.value) == owner]
+            en = cfg.nodes_containing(c)[0]
+            ok = any(cfg.dominates(cfg.node_of(a)[0], en) for a in aligns)
+            if not ok and isinstance(c.args[0], ast.Name) and owner is not None:
+                # equivalent: the emitted proto's name is overwritten with the value's name right after the emission
+                fix = [a for a in own_nodes(f.node) if isinstance(a, ast.Assign) and norm(a.targets[0]) == f"{c.args[0].id}.name"
+                       and isinstance(a.value, ast.Attribute) and a.value.attr == "name" and norm(a.value.value) == owner]
+                ok = any(cfg.dominates(en, cfg.node_of(a)[0]) and getattr(a, "_parent", None) is getattr(getattr(c, "_parent", None), "_parent", None) for a in fix)
+            ctx.check("R6", f"{f.local}: initializer emission is dominated by the name alignment", ok, f, c,
+                      "an initializer tensor can be written to the proto under the tensor's own name instead of its value's name "
+                      "(alignment missing or conditional): a tensor shared by two initializers, or named differently when it was "
+                      "attached, yields duplicate / wrong initializer names and the consumers no longer resolve after a round trip",
+                      how="`<v>.const_value.name = <v>.name` dominates serialize_tensor_into(<proto>.initializer.add(), <v>.const_value)")
+    ctx.require(n >= 1, "no initializer emission found in the serializer")
+
+
 def rule_r5(ctx):
     from ..shared import scope_precedence_sites, scope_stack_functions
 
@@ -241,3 +284,4 @@ def run(ctx):
     c17.rule_r3(_Sub(ctx))
     rule_r4(ctx)
     rule_r5(ctx)
+    rule_r6(ctx)
